@@ -1,57 +1,36 @@
 (* Revision/GenEquiv.v — the definitions tools/go2coq regenerates from rhp/contracts.go
    (gen/RevisionGen.v) are equal, for all arguments, to the hand-written model (Model.v).
 
-   The proofs are deliberately not tied to the text of the generated definitions:
-     * [equiv] unfolds both sides, splits on the scrutinee of every [if]/[match]/[let '(..)] of
-       either side (innermost first, in evaluation order, re-using what is already known) and
-       closes the leaves with reflexivity / congruence / lia;
+   The proofs follow the MEANING of the generated definitions, not their text (GenTactics.v):
+     * [equiv] unfolds both sides completely - the generated callers, the helpers the translator
+       emitted, the hand-written guard [validate_std], the payout accessors down to [nth_error] -
+       and splits on the scrutinee of every [if]/[match]/[let '(..)] of either side (innermost
+       first, re-using what is known: literally, a comparison the other way round, a list access
+       whose length the checks passed so far have bounded); the leaves are closed with
+       reflexivity / congruence / lia.  What a guard has established (list lengths above all) is in
+       the context of everything behind it as a case split: an accessor hoisted into a local above
+       the checks that use it is seen not to panic BECAUSE validateStdRevision accepted, not
+       because of a lemma about the order of today's statements;
      * loops: the generic combinator [for_range] is proved equal to each hand-written fixpoint
        ONCE, for any body that agrees pointwise with the fixpoint's step; the pointwise
-       agreement of the generated body is again shown by [equiv].
-   A harmless rewrite of the Go code (reordered independent checks, renamed locals, Cmp written
-   the other way round, a helper inlined) therefore still proves; a change of behaviour does not. *)
+       agreement of the generated body is again shown by case split.  [loop_facts]: a model loop
+       fails only with the model's error and panics only when the slice walked in step is
+       shorter - so the order of independent loops does not matter either.
+   Harmless rewrites of the Go code that still prove (refactors/R2-*, refactors/T3-*,
+   tools/go2coq/tests/h*.diff): locals hoisted or introduced, renamed locals, Cmp written the other
+   way round, conditions merged / split / negated (De Morgan), comparisons restated
+   (len != 2 as len < 2 || len > 2), independent checks or loops reordered, switch <-> if chain,
+   nested success path, helpers inlined or extracted, range-by-value, functions moved between
+   files.  A change of behaviour does not (tools/go2coq/tests/b*.diff): in particular a Panic is never
+   identified with an error, so an accessor hoisted ABOVE its guard is refused. *)
 From Coq Require Import Lia ZifyBool ZifyN ZifyNat.
 From HostdBase Require Import Base.
 From HostdRevision Require Import Model GenPrelude.
+From HostdRevision Require Export GenTactics.
 From HostdRevision.gen Require Import RevisionGen.
 Local Open Scope N_scope.
 
-(** * the case-splitting tactic *)
-
-(* the scrutinee that is evaluated first in [x] *)
-Ltac inner x :=
-  lazymatch x with
-  | context [match ?y with _ => _ end] => inner y
-  | _ => x
-  end.
-
-Ltac simp := cbv beta iota zeta.
-
-Ltac split_step :=
-  match goal with
-  | |- context [match ?x with _ => _ end] =>
-      let y := inner x in
-      first [ match goal with H : y = _ |- _ => rewrite H end
-            | is_var y; destruct y
-            | destruct y eqn:? ];
-      simp
-  end.
-
-Ltac leaf :=
-  first [ reflexivity
-        | congruence
-        | exfalso; lia
-        | repeat f_equal; lia ].
-
-(* [L]: a tactic that rewrites the loops that have become visible (never fails) *)
-Ltac split_all_l L :=
-  simp; L; try unfold bind; simp;
-  lazymatch goal with
-  | |- ?x = ?x => reflexivity
-  | |- context [match _ with _ => _ end] => split_step; split_all_l L
-  | _ => leaf
-  end.
-Ltac split_all := split_all_l idtac.
+(** * the case-splitting tactic: GenTactics.v *)
 
 (* vocabulary shared by both sides: unfolded so that only N/nat comparisons, the checked
    arithmetic and [nth_error] remain opaque *)
@@ -202,6 +181,102 @@ Proof.
   intros j v u Hj; cbn [Nat.add]; rewrite (H _ _ _ Hj); reflexivity.
 Qed.
 
+(** * what the loops of the hand-written model cannot do: a loop that walks two slices in step
+   panics only when the second is shorter (the code compares the lengths first), a sum or a fill
+   never fails otherwise.  With these facts the ORDER of independent loops does not matter. *)
+
+Lemma sum_o_no_panic : forall l a, sum_o a l <> Panic.
+Proof.
+  induction l as [|o t IH]; intros a; cbn [sum_o]; [discriminate|].
+  destruct (cadd_o a (oval o)) as [s v]. destruct v; [discriminate|apply IH].
+Qed.
+
+Lemma addr_sum_panic_len : forall revs curs a,
+  addr_sum a revs curs = Panic -> (length curs < length revs)%nat.
+Proof.
+  induction revs as [|r t IH]; intros curs a; cbn [addr_sum]; [discriminate|].
+  destruct curs as [|c ct]; [cbn; lia|].
+  destruct (negb (oaddr r =? oaddr c)); [discriminate|].
+  destruct (cadd_o a (oval r)) as [s v]. destruct v; [discriminate|].
+  intros H. apply IH in H. cbn [length]. lia.
+Qed.
+
+Lemma clearing_loop_panic_len : forall fv cv fm,
+  clearing_loop fv cv fm = Panic -> (length cv < length fv)%nat \/ (length fm < length fv)%nat.
+Proof.
+  induction fv as [|v t IH]; intros cv fm; cbn [clearing_loop]; [discriminate|].
+  destruct cv as [|c ct]; [cbn; lia|]. destruct fm as [|m mt]; [cbn; lia|].
+  destruct (negb (oaddr v =? oaddr c)); [discriminate|].
+  destruct (negb (oaddr v =? oaddr m)); [discriminate|].
+  destruct (negb (oval v =? oval m)); [discriminate|].
+  intros H. apply IH in H. cbn [length]. lia.
+Qed.
+
+Lemma with_values_panic_len : forall vs old,
+  with_values old vs = Panic -> (length old < length vs)%nat.
+Proof.
+  induction vs as [|x t IH]; intros [|o ot]; cbn [with_values]; try discriminate; [cbn; lia|].
+  destruct (with_values ot t) eqn:E; cbn [bind]; try discriminate.
+  intros _. apply IH in E. cbn [length]. lia.
+Qed.
+
+Lemma with_values_no_err : forall vs old e, with_values old vs <> Err e.
+Proof.
+  induction vs as [|x t IH]; intros [|o ot] e; cbn [with_values]; try discriminate.
+  destruct (with_values ot t) eqn:E; cbn [bind]; try discriminate.
+  intros _. exact (IH _ _ E).
+Qed.
+
+(* every error of a model loop is the one error value of the model *)
+Lemma sum_o_err : forall l a e, sum_o a l = Err e -> e = EInvalid.
+Proof.
+  induction l as [|o t IH]; intros a e; cbn [sum_o]; [discriminate|].
+  destruct (cadd_o a (oval o)) as [s v]. destruct v; [unfold bad; congruence|apply IH].
+Qed.
+
+Lemma addr_sum_err : forall revs curs a e, addr_sum a revs curs = Err e -> e = EInvalid.
+Proof.
+  induction revs as [|r t IH]; intros curs a e; cbn [addr_sum]; [discriminate|].
+  destruct curs as [|c ct]; [discriminate|].
+  destruct (negb (oaddr r =? oaddr c)); [unfold bad; congruence|].
+  destruct (cadd_o a (oval r)) as [s v]. destruct v; [unfold bad; congruence|apply IH].
+Qed.
+
+Lemma clearing_loop_err : forall fv cv fm e, clearing_loop fv cv fm = Err e -> e = EInvalid.
+Proof.
+  induction fv as [|v t IH]; intros cv fm e; cbn [clearing_loop]; [discriminate|].
+  destruct cv as [|c ct]; [discriminate|]. destruct fm as [|m mt]; [discriminate|].
+  destruct (negb (oaddr v =? oaddr c)); [unfold bad; congruence|].
+  destruct (negb (oaddr v =? oaddr m)); [unfold bad; congruence|].
+  destruct (negb (oval v =? oval m)); [unfold bad; congruence|].
+  apply IH.
+Qed.
+
+Ltac loop_facts :=
+  repeat match goal with
+  | H : sum_o _ _ = Err ?e |- _ => is_var e; pose proof (sum_o_err _ _ _ H); subst e
+  | H : addr_sum _ _ _ = Err ?e |- _ => is_var e; pose proof (addr_sum_err _ _ _ _ H); subst e
+  | H : clearing_loop _ _ _ = Err ?e |- _ => is_var e; pose proof (clearing_loop_err _ _ _ _ H); subst e
+  | H : sum_o _ _ = Panic |- _ => exfalso; exact (sum_o_no_panic _ _ H)
+  | H : with_values _ _ = Err _ |- _ => exfalso; exact (with_values_no_err _ _ _ H)
+  | H : addr_sum ?a ?r ?c = Panic |- _ =>
+      lazymatch goal with
+      | _ : (length c < length r)%nat |- _ => fail
+      | _ => pose proof (addr_sum_panic_len _ _ _ H)
+      end
+  | H : with_values ?o ?v = Panic |- _ =>
+      lazymatch goal with
+      | _ : (length o < length v)%nat |- _ => fail
+      | _ => pose proof (with_values_panic_len _ _ H)
+      end
+  | H : clearing_loop ?f ?c ?m = Panic |- _ =>
+      lazymatch goal with
+      | _ : (length c < length f)%nat \/ (length m < length f)%nat |- _ => fail
+      | _ => pose proof (clearing_loop_panic_len _ _ _ H)
+      end
+  end.
+Ltac model_facts ::= loop_facts.
+
 (** * the validators *)
 
 Ltac loop_body :=
@@ -233,10 +308,11 @@ Ltac loops cur rv :=
             | rewrite (for_range_clearing xs (rvalid rv) (rmissed cur) b) by loop_body ]
   end.
 
-(* first with the payout accessors kept abstract (cheap), then with everything unfolded *)
+(* the hand-written guard [validate_std] is unfolded on both sides (the generated callers are
+   rewritten to it first): what it has checked - list lengths above all - is then in the context
+   of everything that follows it, in whatever order the code reads the payouts *)
 Ltac equiv cur rv :=
-  first [ solve [unfold_common; split_all_l ltac:(loops cur rv)]
-        | solve [unfold_common; unfold_accessors; split_all_l ltac:(loops cur rv)] ].
+  solve [unfold validate_std in *; unfold_common; unfold_accessors; split_all_l ltac:(loops cur rv)].
 
 Lemma validateStdRevision_eq : forall cur rv, validateStdRevision cur rv = validate_std cur rv.
 Proof. intros cur rv. unfold validateStdRevision, validate_std. Time equiv cur rv. Qed.
